@@ -128,6 +128,10 @@ class Changers:
         if direct_change(e):
             return "any"
         c = e.get("fid")
+        if str(n).startswith("lambda@") and c:
+            # a call of a local lambda changes what its body changes
+            ks = {self.kind(q) for g in self.P.by_id.get(c, []) for _, _, q in g.calls()}
+            return "any" if "any" in ks else ("free" if "free" in ks else None)
         if c and self.P.by_id.get(c) and self.P.by_id[c][0].cls == A and n not in MEASURE.values() and self.fn_changes(c):
             return "any"
         return None
@@ -318,8 +322,79 @@ def revert(chk, P, C, f):
     chk.judge(bool(rs), "REVERT", "assemble:worse-goal=>initial-free-qs-restored", f.loc, "under `%s > %s` the initial free q's are put back" % (g, g0))
     chk.judge(bool(asg), "REVERT", "assemble:worse-goal=>initial-goal-reported", f.loc, "under `%s > %s` the returned goal becomes the initial goal" % (g, g0))
     # every path from the optimizer to the final return either knows the goal is not worse or passes the revert
-    opt = [(b, i, e) for b, i, e in f.calls(OPTIMIZE)]
-    chk.shape(len(opt) == 1, "REVERT", "assemble:one-optimize-call", f.loc, "%d optimize calls" % len(opt))
+    opt = sites_of(P, f, lambda q: q["k"] == "call" and q.get("fn") == OPTIMIZE)
+    chk.shape(len(opt) == 1, "REVERT", "assemble:one-optimize-call", f.loc, "%d optimize call sites (directly or in a local lambda)" % len(opt))
+
+
+def lambdas_of(P, f):
+    return [g for g in P.all_fns() if g.d.get("parent") == f.id and g.blocks]
+
+
+def group(P, r, depth=2, seen=None):
+    """r together with the same-class functions it calls (an initialisation routine split into helpers is still one routine) and their local lambdas"""
+    seen = seen if seen is not None else []
+    if r in seen:
+        return seen
+    seen.append(r)
+    for g in lambdas_of(P, r):
+        if g not in seen:
+            seen.append(g)
+    if depth > 0:
+        for _, _, e in r.calls():
+            c = e.get("fid")
+            for g in P.by_id.get(c, []) if c else []:
+                if g.cls == r.cls and g.blocks and g.kind not in ("ctor", "dtor") and sum(1 for _ in g.calls()) > 6 and g.name.split("::")[-1] not in ("uninitialize", "initialize"):
+                    group(P, g, depth - 1, seen)
+    return seen
+
+
+def loop_fields(f, h):
+    """what loop h iterates over: members / getNumBodies named by its condition, or -- for a range-for -- by the initialiser of the range variable behind its iterators"""
+    out = set()
+    t = f.blocks[h].get("term")
+    c = t.get("cond") if t else None
+    if not isinstance(c, list):
+        return out
+
+    def harvest(x):
+        for y in sx_find(x, lambda y: y[0] == "mem" or (y[0] == "call" and y[1].endswith("::getNumBodies"))):
+            out.add(y[2] if y[0] == "mem" else "getNumBodies")
+    harvest(c)
+    hl = [e["line"] for e in f.blocks[h]["ev"] if "line" in e]
+    hline = max(hl) if hl else t.get("line", 10 ** 9)
+    todo, done = [y[1] for y in sx_find(c, lambda y: y[0] == "var")], set()
+    for _ in range(3):
+        nxt = []
+        for v in todo:
+            if v in done:
+                continue
+            done.add(v)
+            # the declaration of v in force at the loop: the nearest one before the loop's condition (for-init and range-for variables reuse names)
+            ds = [d for _, _, d in f.events(lambda q: q["k"] == "decl" and q["var"] == v and isinstance(q.get("init"), list)) if d["line"] <= hline]
+            ds = sorted(ds, key=lambda d: (d["line"], d.get("col", 0)))[-1:]
+            for d in ds:
+                harvest(d["init"])
+                nxt += [y[1] for y in sx_find(d["init"], lambda y: y[0] == "var")]
+        todo = nxt
+    return out
+
+
+def sites_of(P, F, pred):
+    """(function, block, index, site event, body function, matching event): events of F satisfying pred, and calls in F of a local lambda / same-class helper whose
+    body contains one (the site is then the call, the body is the callee)"""
+    out = []
+    for b, i, e in F.events(pred):
+        out.append((F, b, i, e, F, e))
+    for b, i, e in F.calls():
+        c = e.get("fid")
+        for g in P.by_id.get(c, []) if c else []:
+            if g is F or not g.blocks:
+                continue
+            if g.d.get("parent") == F.id or (g.cls == F.cls and g.cls):
+                inner = [q for _, _, q in g.events(pred)]
+                if inner and not any(x[3] is e for x in out):
+                    out.append((F, b, i, e, g, inner[0]))
+    return out
 
 
 def locked(chk, P, C):
@@ -357,74 +432,78 @@ def locked(chk, P, C):
     g = P.fn(A + "::getQIndexOfFreeQ")
     rv = [e for _, _, e in g.ret_events()]
     chk.judge(len(rv) == 1 and bool(sx_find(rv[0]["val"], lambda y: y[0] == "mem" and y[2] == A + "::freeQ2Q")), "LOCKED", "getQIndexOfFreeQ=freeQ2Q[fx]", g.loc, "returns %s" % [sx_str(r["val"]) for r in rv])
-    # freeQ2Q filled with unlocked q's only
-    r = P.fn(A + "::reinitializeWithExtraQsLocked")
-    nl = [d for _, _, d in r.events(lambda e: e["k"] == "decl" and isinstance(e.get("init"), list) and bool(sx_find(e["init"], lambda y: y[0] == "call" and y[1].endswith("::size") and field_of(y[2]) == A + "::lockedQs")))]
-    nlv = {d["var"] for d in nl}
-    notfound = lambda c: isinstance(c, list) and len(c) >= 4 and c[0] in ("op", "opc") and c[1] == "==" and _find_end(c[2], c[3])
-    found_ = lambda c: isinstance(c, list) and len(c) >= 4 and c[0] in ("op", "opc") and c[1] == "!=" and _find_end(c[2], c[3])
-    e_unlocked = known_edges(r, notfound, found_)
-    nonzero = lambda c: (isinstance(c, list) and c and c[0] == "var" and c[1] in nlv) or (isinstance(c, list) and len(c) == 4 and c[0] == "op" and c[1] in ("!=", ">") and var_of(c[2]) in nlv)
-    zero = lambda c: isinstance(c, list) and len(c) == 4 and c[0] == "op" and c[1] == "==" and var_of(c[2]) in nlv
-    e_none = known_edges(r, zero, _conv(nonzero))
+    # freeQ2Q filled with unlocked q's only -- over the (re)initialisation routine and the helpers it is split into
+    r0 = P.fn(A + "::reinitializeWithExtraQsLocked")
+    G = group(P, r0)
+    chk.ok("LOCKED", "initialisation-routine", r0.loc, "analysed as one routine: %s" % [g.name.split("::")[-1] for g in G])
+
     def _fq_write(e):
         w = ev_write(e)
         return bool(w) and w[1] == "=" and field_of(w[0]) == A + "::freeQ2Q" and w[0][0] != "mem"
-    fw = [(b, i, e) for b, i, e in r.events(_fq_write)]
-    chk.shape(len(fw) >= 2, "LOCKED", "freeQ2Q:writes", r.loc, "%d element writes of freeQ2Q in reinitializeWithExtraQsLocked" % len(fw))
-    for n, (b, i, e) in enumerate(fw):
-        ok = only_via(r, b, e_unlocked) or only_via(r, b, e_none)
-        chk.judge(ok, "LOCKED", "freeQ2Q:write#%d:only-unlocked-qs" % n, "%s:%d" % (r.file, e["line"]),
-                  "a q index is entered as free without `lockedQs.find(qx) == lockedQs.end()` being known (and not in the nothing-is-locked branch)")
+    nw = 0
+    for r in G:
+        fw = [(b, i, e) for b, i, e in r.events(_fq_write)]
+        if not fw:
+            continue
+        nl = [d for _, _, d in r.events(lambda e: e["k"] == "decl" and isinstance(e.get("init"), list) and bool(sx_find(e["init"], lambda y: y[0] == "call" and y[1].endswith("::size") and field_of(y[2]) == A + "::lockedQs")))]
+        nlv = {d["var"] for d in nl}
+        notfound = lambda c: isinstance(c, list) and len(c) >= 4 and c[0] in ("op", "opc") and c[1] == "==" and _find_end(c[2], c[3])
+        found_ = lambda c: isinstance(c, list) and len(c) >= 4 and c[0] in ("op", "opc") and c[1] == "!=" and _find_end(c[2], c[3])
+        e_unlocked = known_edges(r, notfound, found_)
+        nonzero = lambda c: (isinstance(c, list) and c and c[0] == "var" and c[1] in nlv) or (isinstance(c, list) and len(c) == 4 and c[0] == "op" and c[1] in ("!=", ">") and var_of(c[2]) in nlv)
+        zero = lambda c: isinstance(c, list) and len(c) == 4 and c[0] == "op" and c[1] == "==" and var_of(c[2]) in nlv
+        e_none = known_edges(r, zero, nonzero)
+        for (b, i, e) in fw:
+            ok = only_via(r, b, e_unlocked) or only_via(r, b, e_none)
+            chk.judge(ok, "LOCKED", "freeQ2Q:write#%d:only-unlocked-qs" % nw, "%s:%d" % (r.file, e["line"]),
+                      "a q index is entered as free without `lockedQs.find(qx) == lockedQs.end()` being known (and not in the nothing-is-locked branch)")
+            nw += 1
+    chk.shape(nw >= 2, "LOCKED", "freeQ2Q:writes", r0.loc, "%d element writes of freeQ2Q in the initialisation routine" % nw)
     for f in P.all_fns():
-        if f is r or not (f.cls == A):
+        if f in G or not (f.cls == A):
             continue
         for b, i, e in f.events(_fq_write):
-            chk.violation("LOCKED", "freeQ2Q:written-in:%s" % f.name, "%s:%d" % (f.file, e["line"]), "freeQ2Q is filled outside reinitializeWithExtraQsLocked")
-    # the three lock sources insert into lockedQs
-    ins = [(b, i, e) for b, i, e in r.calls() if str(e.get("fn", "")).endswith("::insert") and field_of(call_obj(e)) == A + "::lockedQs"]
+            chk.violation("LOCKED", "freeQ2Q:written-in:%s" % f.name, "%s:%d" % (f.file, e["line"]), "freeQ2Q is filled outside the initialisation routine")
+    # the lock sources insert into lockedQs
+    is_ins = lambda q: q["k"] == "call" and str(q.get("fn", "")).endswith("::insert") and field_of(call_obj(q)) == A + "::lockedQs"
     free_eq = lambda c: isinstance(c, list) and len(c) >= 4 and c[0] in ("op", "opc") and c[1] == "==" and bool(sx_find(c, lambda y: y[0] == "call" and y[1].endswith("::getQMotionMethod"))) and bool(sx_find(c, lambda y: y[0] == "enum" and y[1] == "SimTK::Motion::Free"))
     free_ne = lambda c: isinstance(c, list) and len(c) >= 4 and c[0] in ("op", "opc") and c[1] == "!=" and bool(sx_find(c, lambda y: y[0] == "call" and y[1].endswith("::getQMotionMethod"))) and bool(sx_find(c, lambda y: y[0] == "enum" and y[1] == "SimTK::Motion::Free"))
-    e_presc = known_edges(r, free_ne, free_eq)
-    chk.shape(bool(e_presc), "LOCKED", "prescribed:motion-method-test", r.loc, "a branch tests getQMotionMethod(...) against Motion::Free")
-
-    def loop_source(b):
-        """field / call the enclosing loops of block b iterate over"""
-        out = set()
-        for h in r.loops_of(b):
-            t = r.blocks[h].get("term")
-            if t and isinstance(t.get("cond"), list):
-                for y in sx_find(t["cond"], lambda y: y[0] == "mem" or (y[0] == "call" and y[1].endswith("::getNumBodies"))):
-                    out.add(y[2] if y[0] == "mem" else "getNumBodies")
-        return out
     srcs = {"prescribed": None, A + "::userLockedMobilizers": None, A + "::userLockedQs": None, A + "::extraQsLocked": None}
-    for b, i, e in ins:
-        ls = loop_source(b)
-        if only_via(r, b, e_presc) and "getNumBodies" in ls:
-            srcs["prescribed"] = e
-        for k in list(srcs):
-            if k in ls:
-                srcs[k] = e
-        if r.loop_depth(b) == 0 and sx_find(e["x"], lambda y: y[0] == "mem" and y[2] == A + "::extraQsLocked"):
-            srcs[A + "::extraQsLocked"] = e
-    for k, e in sorted(srcs.items()):
-        chk.judge(e is not None, "LOCKED", "lockedQs<-%s" % k.split("::")[-1], r.loc, "q's of source `%s` are inserted into lockedQs" % k.split("::")[-1])
-        if e is None or k == A + "::extraQsLocked":
+    tested = False
+    for r in G:
+        e_presc = known_edges(r, free_ne, free_eq)
+        tested = tested or bool(e_presc)
+        for (F, b, i, site, body, ins) in sites_of(P, r, is_ins):
+            ls = set()
+            for h in F.loops_of(b):
+                ls |= loop_fields(F, h)
+            if e_presc and only_via(F, b, e_presc) and "getNumBodies" in ls:
+                srcs["prescribed"] = (F, site, body, ins)
+            for k in list(srcs):
+                if k in ls:
+                    srcs[k] = (F, site, body, ins)
+            if F.loop_depth(b) == 0 and sx_find(ins["x"], lambda y: y[0] == "mem" and y[2] == A + "::extraQsLocked"):
+                srcs[A + "::extraQsLocked"] = (F, site, body, ins)
+    chk.shape(tested, "LOCKED", "prescribed:motion-method-test", r0.loc, "a branch tests getQMotionMethod(...) against Motion::Free")
+    for k, v in sorted(srcs.items()):
+        chk.judge(v is not None, "LOCKED", "lockedQs<-%s" % k.split("::")[-1], r0.loc, "q's of source `%s` are inserted into lockedQs" % k.split("::")[-1])
+        if v is None or k == A + "::extraQsLocked":
             continue
-        # all q's of the mobilizer: index q0+i (or q0+q) with q0 = getFirstQIndex; whole-mobilizer sources loop i over 0..getNumQ
-        a = _expand_here(r, call_args(e)[0], e) if call_args(e) else None
+        F, site, body, ins = v
+        # all q's of the mobilizer: index q0+i (or q0+q) with q0 = getFirstQIndex; whole-mobilizer sources loop i over 0..getNumQ -- judged where the insert is written
+        a = _expand_here(body, call_args(ins)[0], ins) if call_args(ins) else None
         okq0 = bool(a) and bool(sx_find(a, lambda y: y[0] == "call" and y[1].endswith("::getFirstQIndex")))
-        chk.judge(okq0, "LOCKED", "lockedQs<-%s:index-from-getFirstQIndex" % k.split("::")[-1], "%s:%d" % (r.file, e["line"]), "inserted index: %s" % (sx_str(a) if a else None))
+        chk.judge(okq0, "LOCKED", "lockedQs<-%s:index-from-getFirstQIndex" % k.split("::")[-1], "%s:%d" % (body.file, ins["line"]), "inserted index: %s" % (sx_str(a) if a else None))
         if k != A + "::userLockedQs":
-            b = _pos(r, e)[0]
+            b = _pos(body, ins)[0]
             inner = None
-            for h in r.loops_of(b):
-                t = r.blocks[h].get("term")
+            for h in body.loops_of(b):
+                t = body.blocks[h].get("term")
                 if t and isinstance(t.get("cond"), list):
-                    c = _expand_here(r, t["cond"], e)
+                    c = _expand_here(body, t["cond"], ins)
                     if sx_find(c, lambda y: y[0] == "call" and y[1].endswith("::getNumQ")) and sx_find(c, lambda y: y[0] == "op" and y[1] == "<"):
                         inner = c
-            chk.judge(inner is not None, "LOCKED", "lockedQs<-%s:all-qs-of-the-mobilizer" % k.split("::")[-1], "%s:%d" % (r.file, e["line"]), "the insertion loop runs while i < getNumQ(...)")
+            chk.judge(inner is not None, "LOCKED", "lockedQs<-%s:all-qs-of-the-mobilizer" % k.split("::")[-1], "%s:%d" % (body.file, ins["line"]), "the insertion loop runs while i < getNumQ(...)")
 
 
 def _conv(p):
@@ -454,8 +533,17 @@ def _find_end(a, b):
     return (is_(a, "find") and is_(b, "end")) or (is_(b, "find") and is_(a, "end"))
 
 
+def _holder(P, pred):
+    """the function of the (re)initialisation routine -- reinitializeWithExtraQsLocked or a helper it is split into -- that contains an event satisfying pred"""
+    G = group(P, P.fn(A + "::reinitializeWithExtraQsLocked"))
+    for g in G:
+        if any(True for _ in g.events(pred)):
+            return g
+    return G[0]
+
+
 def bounds(chk, P):
-    r = P.fn(A + "::reinitializeWithExtraQsLocked")
+    r = _holder(P, lambda q: q["k"] == "call" and str(q.get("fn", "")).endswith("::setParameterLimits"))
     cs = [(b, i, e) for b, i, e in r.calls() if str(e.get("fn", "")).endswith("::setParameterLimits")]
     if not chk.shape(len(cs) == 1, "BOUNDS", "setParameterLimits:one-call", r.loc, "%d calls" % len(cs)):
         return
@@ -483,6 +571,7 @@ def bounds(chk, P):
             chk.judge(late is None, "BOUNDS", "%s:before-the-Optimizer-is-constructed" % ee["fn"].split("::")[-1], "%s:%d" % (r.file, ee["line"]),
                       "asmSys is configured after `new Optimizer(*asmSys)` chose its algorithm from it (without limits / constraints visible, an algorithm that ignores them may be chosen)", late)
     # lower[fx] = r[0]; upper[fx] = r[1]
+    r = _holder(P, lambda q: q["k"] == "assign" and field_of(q["lhs"]) in (A + "::lower", A + "::upper") and q["lhs"][0] in ("opc", "idx"))
     for fld, k in ((A + "::lower", "0"), (A + "::upper", "1")):
         ws = [(bb, ii, ee) for bb, ii, ee in r.events(lambda q: q["k"] == "assign" and field_of(q["lhs"]) == fld and q["lhs"][0] in ("opc", "idx"))]
         chk.shape(len(ws) == 1, "BOUNDS", "%s[fx]:one-write" % fld.split("::")[-1], r.loc, "%d element writes" % len(ws))
@@ -499,7 +588,7 @@ def bounds(chk, P):
 
 
 def errlist(chk, P):
-    r = P.fn(A + "::reinitializeWithExtraQsLocked")
+    r = _holder(P, lambda q: q["k"] == "call" and str(q.get("fn", "")).endswith("::push_back") and field_of(call_obj(q)) == A + "::errors")
     isinf = lambda c: isinstance(c, list) and len(c) >= 4 and c[0] in ("op", "opc") and c[1] == "==" and field_of(c[2]) == A + "::weights" and bool(sx_find(c[3], lambda y: y[0] == "gvar" and y[1].endswith("Infinity")))
     notinf = lambda c: isinstance(c, list) and len(c) >= 4 and c[0] in ("op", "opc") and c[1] == "!=" and field_of(c[2]) == A + "::weights" and bool(sx_find(c[3], lambda y: y[0] == "gvar" and y[1].endswith("Infinity")))
     e_inf = known_edges(r, isinf, notinf)
@@ -515,7 +604,7 @@ def errlist(chk, P):
         chk.shape(len(h) == 1, "ERRLIST", "errors:in-the-conditions-loop", r.loc, "loop nesting of the push_back: %d" % len(h))
         if len(h) == 1:
             t = r.blocks[h[0]].get("term")
-            okl = bool(t) and bool(sx_find(t["cond"], lambda y: y[0] == "call" and y[1].endswith("::size") and field_of(y[2]) == A + "::conditions"))
+            okl = bool(t) and (A + "::conditions") in loop_fields(r, h[0])
             chk.judge(okl, "ERRLIST", "errors:loop-over-all-conditions", r.loc, "loop condition %s" % (sx_str(t["cond"]) if t else None))
             # the only ways past the push_backs inside an iteration: weight == 0, or no error terms
             skipw = known_edges(r, lambda c: isinstance(c, list) and len(c) >= 4 and c[0] in ("op", "opc") and c[1] == "==" and field_of(c[2]) == A + "::weights" and sx_find(c[3], lambda y: y[0] == "lit" and y[1] in ("0", "0.0", "0.")),
@@ -539,7 +628,7 @@ def errlist(chk, P):
         b, i, e = ce[0]
         hs = cf.loops_of(b)
         t = cf.blocks[hs[0]].get("term") if len(hs) == 1 else None
-        chk.judge(bool(t) and bool(sx_find(t["cond"], lambda y: y[0] == "call" and y[1].endswith("::size") and field_of(y[2]) == A + "::errors")), "ERRLIST", "constraintFunc:loop-over-all-errors", cf.loc,
+        chk.judge(bool(t) and (A + "::errors") in loop_fields(cf, hs[0]), "ERRLIST", "constraintFunc:loop-over-all-errors", cf.loc,
                   "loop condition %s" % (sx_str(t["cond"]) if t else None))
         a = call_args(e)
         slot = a[1] if len(a) > 1 else None
@@ -567,20 +656,25 @@ def errlist(chk, P):
     if chk.shape(len(ed) == 1, "ERRLIST", "calcCurrentErrorNorm:error-vector", n.loc, "%d vectors taken from calcCurrentErrors()" % len(ed)):
         ev = ed[0]["var"]
         rets = [rr for _, _, rr in n.ret_events() if not (isinstance(rr["val"], list) and rr["val"][0] == "lit")]
-        chk.shape(len(rets) == 1, "ERRLIST", "calcCurrentErrorNorm:one-computed-return", n.loc, "%d" % len(rets))
-        for rr in rets:
-            v = rr["val"]
+        chk.shape(len(rets) >= 1, "ERRLIST", "calcCurrentErrorNorm:computed-returns", n.loc, "%d" % len(rets))
+
+        def is_inf(v):
             mx = sx_find(v, lambda y: y[0] in ("call", "dcall") and str(y[1]).split("::")[-1] == "max")
-            okinf = any(sx_find(m, lambda y: y[0] in ("call", "dcall") and str(y[1]).split("::")[-1] == "abs" and bool(sx_find(y, lambda z: z[0] == "var" and z[1] == ev))) for m in mx) or \
+            return any(sx_find(m, lambda y: y[0] in ("call", "dcall") and str(y[1]).split("::")[-1] == "abs" and bool(sx_find(y, lambda z: z[0] == "var" and z[1] == ev))) for m in mx) or \
                 bool(sx_find(v, lambda y: y[0] == "call" and y[1].endswith("::normInf") and var_of(y[2]) == ev))
-            chk.judge(okinf, "ERRLIST", "calcCurrentErrorNorm:inf-norm=max(abs(errs))", "%s:%d" % (n.file, rr["line"]), "returned %s" % sx_str(v)[:160])
-            okrms = (bool(sx_find(v, lambda y: y[0] in ("call", "dcall") and str(y[1]).split("::")[-1] == "sqrt")) and bool(sx_find(v, lambda y: y[0] == "call" and y[1].endswith("::size") and var_of(y[2]) == ev))) or \
+
+        def is_rms(v):
+            return (bool(sx_find(v, lambda y: y[0] in ("call", "dcall") and str(y[1]).split("::")[-1] == "sqrt")) and bool(sx_find(v, lambda y: y[0] == "call" and y[1].endswith("::size") and var_of(y[2]) == ev))) or \
                 bool(sx_find(v, lambda y: y[0] == "call" and y[1].endswith("::normRMS") and var_of(y[2]) == ev))
-            chk.judge(okrms, "ERRLIST", "calcCurrentErrorNorm:rms-norm=sqrt(e.e/n)", "%s:%d" % (n.file, rr["line"]), "returned %s" % sx_str(v)[:160])
+        vals = [rr["val"] for rr in rets]
+        chk.judge(bool(vals) and all(is_inf(v) or is_rms(v) for v in vals), "ERRLIST", "calcCurrentErrorNorm:every-return-is-a-norm-of-the-error-vector", n.loc,
+                  "returned %s" % [sx_str(v)[:80] for v in vals])
+        chk.judge(any(is_inf(v) for v in vals), "ERRLIST", "calcCurrentErrorNorm:inf-norm=max(abs(errs))", n.loc, "the infinity norm is the maximum of the ABSOLUTE values")
+        chk.judge(any(is_rms(v) for v in vals), "ERRLIST", "calcCurrentErrorNorm:rms-norm=sqrt(e.e/n)", n.loc, "the RMS norm divides by the number of error terms")
     # the optimizer is given the same tolerance before it runs
     for fname in ("assemble()", "track"):
         f = _fn(P, fname)
-        for b, i, e in f.calls(OPTIMIZE):
+        for (_F, b, i, e, _body, _in) in sites_of(P, f, lambda q: q["k"] == "call" and q.get("fn") == OPTIMIZE):
             isset = lambda q: q["k"] == "call" and q.get("fn") == "SimTK::Optimizer::setConstraintTolerance" and bool(call_args(q)) and isinstance(call_args(q)[0], list) and call_args(q)[0][0] == "call" and call_args(q)[0][1] == TOLFN
             p = f.path_exists(None, lambda q: q is e, isset, lift=0)
             chk.judge(p is None, "ERRLIST", "%s:optimizer-constraint-tolerance=getErrorToleranceInUse()" % fname.replace("()", ""), "%s:%d" % (f.file, e["line"]),
